@@ -10,7 +10,7 @@ EXPLANATION = "see DESIGN.md C14"
 
 
 def units(tier):
-    return A.U_ACTIVITY + [A.U_EPITHERMAL, A.U_ACCUMULATE, A.U_CALC_ACTIVATION, K.L_REGISTRATION]
+    return (A.U_ACTIVITY + [A.U_EPITHERMAL, A.U_ACCUMULATE, A.U_CALC_ACTIVATION, K.L_REGISTRATION]) + [A.U_ENV_INIT] + A.U_SAMPLE_INIT
 
 
 def runner_tasks(tier):
